@@ -305,12 +305,12 @@ Qed.
    slices from a slab (x[:n], x[n:]), reuses capacity (x[:count]) or appends to a way's slice changes
    this set. *)
 Definition expected_slice_ops : list string :=
-  ["Decode: make []osm.Object len+cap"; "scanDenseNodes: append .Tags"; "scanDenseNodes: append .q";
-   "scanDenseNodes: make osm.Tags len+cap"; "scanDenseNodes: slice[:0]";
+  ["Decode: make []osm.Object"; "scanDenseNodes: append .Tags"; "scanDenseNodes: append .q";
+   "scanDenseNodes: make osm.Tags"; "scanDenseNodes: slice[:0]";
    "scanPrimitiveBlock: slice[:0]";
    "scanPrimitiveGroup: append .q"; "scanPrimitiveGroup: slice[:0]";
-   "scanRelations: make osm.Members len"; "scanRelations: make osm.Tags len";
-   "scanWays: make osm.Tags len"; "scanWays: make osm.WayNodes len"].
+   "scanRelations: make osm.Members"; "scanRelations: make osm.Tags";
+   "scanWays: make osm.Tags"; "scanWays: make osm.WayNodes"].
 Theorem decoder_slice_discipline_matches_source : GenPbfCode.slice_ops = expected_slice_ops.
 Proof. reflexivity. Qed.
 
